@@ -205,7 +205,9 @@ func (s *Sess) emitOpX(name string, args []string, o obsT, noteV bool) {
 		body = nil
 	}
 	vid := r.Header.Get("x-amz-version-id")
-	if noteV {
+	if noteV && name != "copy" {
+		// (a copy answers with the version id of its source, not with that of the version it made: no property
+		// speaks of that header, and the id may be one the server otherwise keeps to itself)
 		s.noteVid(vid)
 	}
 	fields := append([]string{s.prop, "O", name}, args...)
@@ -418,6 +420,7 @@ type ListReq struct {
 	StartAfter                    bool   // V2: send marker as start-after instead of continuation-token
 	EmptyDelim                    bool   // send "delimiter=" with an empty value (the same as not sending it)
 	AlsoStartAfter                string // V2 with a continuation token: a start-after sent along with it (as SDK paginators do); the token wins
+	RawToken                      string // V2: the continuation token exactly as the server handed it out (sent instead of encoding Marker)
 }
 
 type ListResp struct {
@@ -426,6 +429,7 @@ type ListResp struct {
 	Prefixes  []string
 	Truncated bool
 	Next      string
+	NextRaw   string // V2: NextContinuationToken as sent
 }
 
 func (s *Sess) List(q ListReq) ListResp {
@@ -447,7 +451,11 @@ func (s *Sess) List(q ListReq) ListResp {
 		} else if q.StartAfter {
 			ps = append(ps, "start-after="+queryEscape(q.Marker))
 		} else {
-			ps = append(ps, "continuation-token="+queryEscape(base64.URLEncoding.EncodeToString([]byte(q.Marker))))
+			if q.RawToken != "" {
+				ps = append(ps, "continuation-token="+queryEscape(q.RawToken))
+			} else {
+				ps = append(ps, "continuation-token="+queryEscape(base64.URLEncoding.EncodeToString([]byte(q.Marker))))
+			}
 			if q.AlsoStartAfter != "" {
 				ps = append(ps, "start-after="+queryEscape(q.AlsoStartAfter))
 			}
@@ -486,6 +494,7 @@ func (s *Sess) List(q ListReq) ListResp {
 			o.truncated = lx.IsTruncated
 			out.Truncated = lx.IsTruncated
 			if q.V2 {
+				out.NextRaw = lx.NextToken
 				if lx.NextToken != "" {
 					if b, err := base64.URLEncoding.DecodeString(lx.NextToken); err == nil {
 						o.next = string(b)
